@@ -228,6 +228,7 @@ Definition serve (b : binlog) : list wevent :=
 Section Denote.
 Variable ffmt : Z -> Z -> bytes.
 Variable tz : Z -> Z.
+Variable efmt : Z -> bytes.      (* 'E' formatting of the doubles inside JSON documents (Spec.Values.text) *)
 Variable mp : mapper.
 
 Definition tinfo_of (t : table_def) : tinfo :=
@@ -254,8 +255,8 @@ Definition rows_sevent (t : table_def) (hr : whdr) (r : rows_def) : sevent :=
   let specs := specs_of t ti in
   {| se_type := 4 + rd_kind r;                            (* 4 insert, 5 update, 6 delete *)
      se_table := ti_name ti; se_query := zero_query; se_ts := w_ts hr;
-     se_values := if rd_kind r =? 2 then [] else map (expect_columns ffmt tz specs) (after_images r);
-     se_ids := if rd_kind r =? 0 then [] else map (expect_columns ffmt tz specs) (before_images r) |}.
+     se_values := if rd_kind r =? 2 then [] else map (expect_columns ffmt tz efmt specs) (after_images r);
+     se_ids := if rd_kind r =? 0 then [] else map (expect_columns ffmt tz efmt specs) (before_images r) |}.
 
 Definition rows_stmt (t : table_def) (hr : whdr) (r : rows_def) : stmt :=
   {| st_ev := rows_sevent t hr r; st_next := w_next hr; st_ts := w_ts hr |}.
